@@ -777,7 +777,10 @@ class LoadMixin(AbstractLoaderGenerator, BaseLoadHook):
 
             # Special case for Optional[x], which is actually Union[x, None]
             if len(args) == 2 and NoneType in args:
-                new_tp = tp.replace(origin=args[0], args=None, name=None)
+                # `None` can come first, as in `Union[None, x]`
+                new_tp = tp.replace(
+                    origin=args[1] if args[0] is NoneType else args[0],
+                    args=None, name=None)
                 new_tp.in_optional = True
 
                 string = cls.get_string_for_annotation(new_tp, extras)
